@@ -292,14 +292,15 @@ func (a *AccountData) Copy() *AccountData {
 		cpy.Candidate.Votes = new(big.Int).Set(a.Candidate.Votes)
 	}
 
-	if len(a.Candidate.Profile) > 0 {
+	// an empty map must be copied too, or the first write through the copy lands in the original's map
+	if a.Candidate.Profile != nil {
 		cpy.Candidate.Profile = make(Profile)
 		for k, v := range a.Candidate.Profile {
 			cpy.Candidate.Profile[k] = v
 		}
 	}
 
-	if len(a.NewestRecords) > 0 {
+	if a.NewestRecords != nil {
 		cpy.NewestRecords = make(map[ChangeLogType]VersionRecord)
 		for logType, record := range a.NewestRecords {
 			cpy.NewestRecords[logType] = record
